@@ -327,6 +327,34 @@ func init() {
 				}
 				stat("C10", "nil-env")
 			}
+			// the env block is processed whatever else the pipeline holds: with no steps at all (nil, or empty) the
+			// block and the caller's environment end up as they do next to a step
+			if it%3 == 2 {
+				mkb := func(steps pipeline.Steps) *pipeline.Pipeline {
+					m := ordered.NewMap[string, string](0)
+					for _, pr := range block {
+						m.Set(pr[0], pr[1])
+					}
+					return &pipeline.Pipeline{Env: m, Steps: steps}
+				}
+				pWith, pBare := mkb(pipeline.Steps{&pipeline.CommandStep{Command: "plain"}}), mkb(sx.Pick(rng, []pipeline.Steps{nil, {}}))
+				eWith, eBare := env.clone(), env.clone()
+				errWith, errBare := pWith.Interpolate(eWith, prefer), pBare.Interpolate(eBare, prefer)
+				dump := func(p *pipeline.Pipeline, e *hEnv) string {
+					var b strings.Builder
+					p.Env.Range(func(k, v string) error { fmt.Fprintf(&b, "%q=%q;", k, v); return nil })
+					b.WriteString(" | ")
+					for _, k := range sortedKeys(e.m) {
+						fmt.Fprintf(&b, "%q=%q;", k, e.m[k])
+					}
+					return b.String()
+				}
+				if (errWith == nil) != (errBare == nil) || errWith == nil && dump(pWith, eWith) != dump(pBare, eBare) {
+					oracleFail("C10", "env-only-pipeline", c, fmt.Sprintf("block and environment after interpolating the pipeline without steps: %s (err %v); next to a step: %s (err %v)", dump(pBare, eBare), errBare, dump(pWith, eWith), errWith))
+					continue
+				}
+				stat("C10", "env-only-pipeline")
+			}
 			p := &pipeline.Pipeline{Env: envMap, Steps: pipeline.Steps{&pipeline.CommandStep{Command: probe.raw}}}
 			refEnv := env.clone()
 			useLib := it%3 == 1 && !rawClash
